@@ -27,7 +27,12 @@ GenSlice(fab, L) == IF NGen = 0 THEN GenRots
                     ELSE LET n == Len(GenSeq) IN {GenSeq[((k * 7) % n) + 1] : k \in 1..NGen}
 FrameRots == {OctaSeq[((k * 5) % 24) + 1] : k \in 1..QCount}
 
-Init == \E fab \in Fabs, L \in Ls, rg \in Regimes : st = [phase |-> "go", fab |-> fab, L |-> L, regime |-> rg]
+\* velocity gradients with an axis-aligned strain rate: no slip is resolved on an axis-aligned grain
+DiagLs == { IntMat(<<<<1,0,0>>,<<0,-1,0>>,<<0,0,0>>>>), IntMat(<<<<1,0,0>>,<<0,0,0>>,<<0,0,-1>>>>), IntMat(<<<<0,0,0>>,<<0,1,0>>,<<0,0,-1>>>>),
+            IntMat(<<<<1,0,0>>,<<0,1,0>>,<<0,0,-2>>>>), IntMat(<<<<-1,1,0>>,<<-1,-1,0>>,<<0,0,2>>>>) }   \* last: with vorticity
+SkewWs == { IntMat(<<<<0,-1,2>>,<<1,0,-1>>,<<-2,1,0>>>>), IntMat(<<<<0,3,1>>,<<-3,0,2>>,<<-1,-2,0>>>>), IntMat(<<<<0,0,1>>,<<0,0,0>>,<<-1,0,0>>>>) }
+Init == \/ \E fab \in Fabs, L \in Ls, rg \in Regimes : st = [phase |-> "go", fab |-> fab, L |-> L, regime |-> rg]
+        \/ \E fab \in Fabs, L \in DiagLs, rg \in Regimes : st = [phase |-> "golimit", fab |-> fab, L |-> L, regime |-> rg]
 OctaSlice == IF NOcta = 0 THEN OctaRots ELSE {OctaSeq[((k * 7) % 24) + 1] : k \in 1..NOcta}
 SingleGrain == \E A \in OctaSlice \cup GenSlice(st.fab, st.L) :
       LET c == [fab |-> st.fab, regime |-> st.regime, L |-> st.L, As |-> <<A>>, f |-> <<QOne>>]
@@ -42,13 +47,26 @@ MultiGrain == Multi /\ \E f \in Vols :
           c == [fab |-> st.fab, regime |-> st.regime, L |-> st.L, As |-> As, f |-> f]
           ks == TLCEval(Kernels(c))
       IN st' = [phase |-> "case", c |-> c, ks |-> ks, prog |-> TLCEval(CaseProgram(c, ks))]
-Next == st.phase = "go" /\ (SingleGrain \/ MultiGrain)
+\* nearly degenerate grains: grain 1 is A(delta) = (1 + delta W) A0 with A0 axis-aligned (no slip resolved
+\* at delta = 0), judged against the first-order limit kernel; grain 2 is a generic companion so that the
+\* volume rates see the energy of grain 1
+NearDegenerate == \E A0 \in OctaSlice, W \in (IF NOcta = 0 THEN SkewWs ELSE {IntMat(<<<<0,-1,2>>,<<1,0,-1>>,<<-2,1,0>>>>)}),
+                     f \in (IF NOcta = 0 THEN {<<QHalf, QHalf>>, <<<<1, 4>>, <<3, 4>>>>} ELSE {<<<<1, 4>>, <<3, 4>>>>}) :
+      LET A2 == GenSeq[((Len(GenSeq) \div 2) % Len(GenSeq)) + 1]
+          c == [fab |-> st.fab, regime |-> st.regime, L |-> st.L, As |-> <<A0, A2>>, f |-> f]
+          k1 == LimitKernel(st.fab, A0, W, st.L)
+          ks == TLCEval(<<k1, Kernel(st.fab, A2, st.L)>>)
+      IN /\ \A s \in S4 : SlipInv(MEval(MSym(st.L)), A0, s) = QZ          \* really degenerate at delta = 0
+         /\ st' = [phase |-> "case", c |-> c, ks |-> ks,
+                   prog |-> TLCEval([CaseProgram(c, ks) EXCEPT !.limit = TRUE] @@ [W |-> MatToSeq(W)])]
+Next == \/ st.phase = "go" /\ (SingleGrain \/ MultiGrain)
+        \/ st.phase = "golimit" /\ NearDegenerate
 Spec == Init /\ [][Next]_st
 
 \* ---- invariants
 LemmasHold == st.phase = "case" => st.prog.lemmas
 \* C04 on the exact domain: covariance under frame rotations and crystal two-folds, all betas
-FrameLemma == (st.phase = "case" /\ Len(st.c.As) = 1) =>
+FrameLemma == (st.phase = "case" /\ Len(st.c.As) = 1 /\ ~st.prog.limit) =>
     LET A == st.c.As[1]  L == st.c.L  k == st.ks[1] IN
       /\ \A Qm \in FrameRots :
             Covariant(k, Kernel(st.c.fab, MEval(MMul(A, MT(Qm))), MEval(MMul(MMul(Qm, L), MT(Qm)))), Qm)
